@@ -396,6 +396,27 @@ else:
                 shape_only.add(id(n.args[0]))
         return {fam_of[dotted(n)] for n in ast.walk(e) if isinstance(n, ast.Attribute) and id(n) not in shape_only and dotted(n) in fam_of}
 
+    fam_stores = [a for a in walk_no_nested(cs.node) if isinstance(a, ast.Assign) and any(dotted(t) in fam_of for t in a.targets)]
+
+    def stored_as(nm: ast.Name, d):
+        """(family F, the storing assignment, test `the store precedes cfg node n on every path`) when the value the definition d gives the local nm is
+        the very object stored in self.data.<F>varCovar: `nm = self.data.FvarCovar = e`, or `nm = e` and `self.data.FvarCovar = nm` reached by d alone;
+        None otherwise (also when it is stored in the matrices of two families)"""
+        found = []
+        for a in fam_stores:
+            fams = {fam_of[dotted(t)] for t in a.targets if dotted(t) in fam_of}
+            if a.value is d.value:
+                found += [(f_, a) for f_ in fams]
+            elif isinstance(a.value, ast.Name) and a.value.id == nm.id:
+                at_ = ccfg.node_of(a)
+                ds_ = ccfg.reaching(at_, nm.id) if at_ is not None else []
+                if len(ds_) == 1 and ds_[0].kind == 'assign' and ds_[0].value is d.value:
+                    found += [(f_, a) for f_ in fams]
+        if len({f_ for f_, _ in found}) != 1:
+            return None
+        f_, a = found[0]
+        return f_, a, lambda n: n is not None and all(ccfg.node_of(a_) is not None and ccfg.dominates(ccfg.node_of(a_), n) for f2, a_ in found[:1])
+
     def sources(e: ast.AST) -> tuple[dict, set]:
         """(definite, possible) for the matrices that enter the value of e (a node of _calculate_stats).  definite: family -> how,
         for a matrix read in e itself, or read by EVERY definition that reaches one of the function's variables e reads (reaching
@@ -416,8 +437,16 @@ else:
                     ds = ccfg.reaching(at, nm.id) if at is not None else []
                     common = None
                     for d in ds:
+                        own_of = stored_as(nm, d) if d.kind == 'assign' and d.value is not None else None
                         if d.kind != 'assign' or d.value is None or id(d.value) in stack:
                             dd, pp = {}, set()  # a definition the rule does not read: nothing is certain through this name
+                        elif own_of is not None:
+                            # the object this definition gives the name is the one stored in self.data.<F>varCovar: the name is family F's
+                            # matrix, whatever it is computed from (the robust matrix is made of the classical one: reading it is not reading
+                            # the classical one); certain only when the store comes before the reading on every path
+                            f_, a_, before = own_of
+                            pp = {f_}
+                            dd = {f_: f'{nm.id} is the matrix stored in self.data.{f_}varCovar (line {a_.lineno})'} if before(at) else {}
                         else:
                             dd, pp = go(d.value, depth - 1, stack | {id(d.value)})
                             dd = {f_: (h or f'{nm.id} holds `{unparse(d.value)}` (line {getattr(d.value, "lineno", "?")})') for f_, h in dd.items()}
@@ -462,9 +491,66 @@ else:
         return resolved(t.test) == f'{vii} < 0' and all(unparse(c.func.value) == f'self.data.betas[{I}]' for c in setters) \
             and resolved(low.args[0]) == 'np.finfo(float).max' and resolved(high.args[0]) == f'np.sqrt({vii})'
 
+    def own_names() -> ast.AST | None:
+        """_calculate_stats with every local that only names a family's matrix written as that matrix: `L = e` immediately followed by
+        `self.data.FvarCovar = L`, L bound nowhere else and read only after the store, the attribute stored nowhere else, becomes
+        `self.data.FvarCovar = e` and every later L is self.data.FvarCovar (one object under two names).  None when there is no such local."""
+        todo = []
+        for a in fam_stores:
+            if not (plain_store(a, dotted(a.targets[0]) or '') and isinstance(a.value, ast.Name)):
+                continue
+            chain, L = dotted(a.targets[0]), a.value.id
+            blk = block_of(a)
+            if blk is None or blk.index(a) == 0 or len(stores_of(cs.node, chain)) != 1:
+                continue
+            d = blk[blk.index(a) - 1]
+            binds = [n for n in ast.walk(cs.node) if isinstance(n, ast.Name) and n.id == L and not isinstance(n.ctx, ast.Load)]
+            a_cs = cs.node.args
+            if not (isinstance(d, ast.Assign) and len(d.targets) == 1 and isinstance(d.targets[0], ast.Name) and d.targets[0].id == L and binds == [d.targets[0]]) \
+                    or L in {x.arg for x in a_cs.posonlyargs + a_cs.args + a_cs.kwonlyargs} or any(isinstance(n, ast.Name) and n.id == L for n in ast.walk(d.value)):
+                continue
+            at_ = ccfg.node_of(a)
+            loads = [n for n in walk_no_nested(cs.node) if isinstance(n, ast.Name) and n.id == L and isinstance(n.ctx, ast.Load) and n is not a.value]
+            if at_ is None or len(loads) != sum(1 for n in ast.walk(cs.node) if isinstance(n, ast.Name) and n.id == L and isinstance(n.ctx, ast.Load)) - 1 \
+                    or any(ccfg.node_of(n) is None or ccfg.node_of(n) == at_ or not ccfg.dominates(at_, ccfg.node_of(n)) for n in loads):
+                continue  # (read in a nested function, or on a path that does not pass the store)
+            todo.append((chain, L, (d.lineno, d.col_offset), (a.lineno, a.col_offset)))
+        if not todo:
+            return None
+        tree = copy.deepcopy(cs.node)
+        for chain, L, dpos, apos in todo:
+            attr = ast.parse(chain, mode='eval').body
+
+            class Own(ast.NodeTransformer):
+                def visit_Assign(self, n):
+                    if (n.lineno, n.col_offset) == apos and isinstance(n.value, ast.Name) and n.value.id == L:
+                        return None
+                    if (n.lineno, n.col_offset) == dpos and isinstance(n.targets[0], ast.Name) and n.targets[0].id == L:
+                        t = copy.deepcopy(attr)
+                        t.ctx = ast.Store()
+                        n.targets = [ast.copy_location(t, n.targets[0])]
+                        n.value = self.visit(n.value)
+                        return n
+                    return self.generic_visit(n)
+
+                def visit_Name(self, n):
+                    if n.id == L and isinstance(n.ctx, ast.Load):
+                        return ast.copy_location(copy.deepcopy(attr), n)
+                    return n
+
+            tree = ast.fix_missing_locations(Own().visit(tree))
+        return tree
+
+    try:
+        cs_own = own_names()
+    except Exception:
+        cs_own = None
+
     for fam in FAMILIES:
         setters = [n for n in walk_no_nested(cs.node) if isinstance(n, ast.Call) and isinstance(n.func, ast.Attribute) and n.func.attr == f'set_{fam}std_err']
         ok = has(cs.node, BLOCK.replace('FAM', fam)) or (std_errors_ok(fam, setters) and has(cs.node, COR.replace('FAM', fam)))
+        # (a local that is only another name of a family's matrix is read as that matrix)
+        ok = ok or (cs_own is not None and has(cs_own, BLOCK.replace('FAM', fam)))
         line = setters[0].lineno if setters else cs.line
         # decided per assignment, whatever the loops look like: which matrix feeds the standard error handed to the setter of this
         # family, which matrix feeds the correlation of this family.  A matrix of ANOTHER family there is the contradiction.
